@@ -19,6 +19,7 @@ TEMPLATES = [
     (["C"], [[]], []),
     (["C", "O"], [[], []], [(0, 1, 1)]),
     (["F", "C", "C"], [[0, 1], [], [2, 1]], [(0, 1, 1), (1, 2, 2)]),
+    (["O", "H", "C"], [[], [], []], [(0, 1, 1), (0, 2, 1)]),
     (["C", "C", "N"], [[], [], []], [(0, 1, 1), (1, 2, 1), (0, 2, 1)]),
 ]
 CLAUSES = ["X_GraphOps_Replayable", "X_GraphOps_Nodes", "X_GraphOps_Edges", "X_GraphOps_Returned"]
